@@ -95,11 +95,11 @@ CHECKS.update({
   note="Trusted: Coq kernel (these theorems are closed under the global context - no axioms); the hand model Model/Codec.v is tied to utils.py by the leaf-by-leaf comparison on random trees; h5py's coercions are modelled (decode/canon), 0-d arrays and mixed-type lists are outside wf; object-level round trips (samples, histories, transforms, flows, config) are decided by differential testing, not by theorems.",
   ref="DESIGN.md section 5 C13"),
  "C03": dict(technique="Coq proof about log_prob / sample_and_log_prob of both flow back-ends regenerated from the source (abstract base density, data transform satisfying C04); sample-vs-eval agreement, bounds and quadrature of exp(log_prob) on real zuko / flowjax flows",
-  text="Theorems (partial by nature): log_prob(x) = base(T x) + log|det dT/dx| row by row in both back-ends; the log-density returned with drawn samples equals log_prob evaluated at those samples whenever the data transform round-trips with negated log-Jacobian (C04). Normalisation itself needs a change of variables for the external flow's density and multivariate integration (not available): it is checked by graded trapezoid quadrature in 1-2 dims on untrained / trained / reloaded flows, accounting for the mass inside the documented clip margin.",
+  text="Theorems (partial by nature): log_prob(x) = base(T x) + log|det dT/dx| row by row in both back-ends; the log-density returned with drawn samples equals log_prob evaluated at those samples whenever the data transform round-trips with negated log-Jacobian (C04). Normalisation itself needs a change of variables for the external flow's density and multivariate integration (not available): in ONE coordinate the data-transform layer is proved to preserve the mass of every interval (substitution rule, Coquelicot RInt_comp; instantiated for the logit and affine coordinate maps of C04), otherwise it is checked by graded trapezoid quadrature in 1-2 dims on untrained / trained / reloaded flows, accounting for the mass inside the documented clip margin.",
   note="Trusted: Coq kernel; Reals axioms; tools/translate.py; zuko / flowjax provide a normalised base density and return it consistently with their samples (Section variables); normalisation in d>2 is not checked; samples inside the clip margin (u within 4e-6 of a bound) are excluded as in C04.",
   ref="DESIGN.md section 5 C03"),
  "C01": dict(technique="Coq proofs of the estimator identities on finite spaces (unbiasedness of the importance evidence estimate over n i.i.d. draws, telescoping of the tempering path, target handed to the kernels under any preconditioning) + replicated statistical runs on analytic targets",
-  text="Theorems (partial by nature - no measure theory library, external kernels' convergence cannot be modelled): E over n i.i.d. proposal draws of the mean importance weight = sum_x L(x) pi(x) for any proposal positive on the support; the log-ratios of any temperature ladder telescope to ln Z_T - ln Z_0 (with C08: the SMC loop sums exactly those ratios); the kernel target is the tempered posterior plus the inverse map's log-Jacobian for any preconditioning (C05). The search runs importance / MiniPCN-SMC / Emcee-SMC with every preconditioning option on a Gaussian in a box, a Gaussian hugging a bound and a von-Mises target on a circle, and requires replicate-averaged Z_hat/Z and posterior moments within 6 standard errors (+ stated allowances) of the closed forms.",
+  text="Theorems (partial by nature - no measure theory library, external kernels' convergence cannot be modelled): E over n i.i.d. proposal draws of the mean importance weight = sum_x L(x) pi(x) for any proposal positive on the support; the log-ratios of any temperature ladder telescope to ln Z_T - ln Z_0 (with C08: the SMC loop sums exactly those ratios); under the tempered distribution at b0 the mean incremental weight exp((b1-b0)(log L + log pi - log q)) is Z_b1/Z_b0, so for ANY ladder from 0 to 1 the exact log mean incremental weights add up to the log-evidence; the kernel target is the tempered posterior plus the inverse map's log-Jacobian for any preconditioning (C05). The search runs importance / MiniPCN-SMC / Emcee-SMC with every preconditioning option on a Gaussian in a box, a Gaussian hugging a bound and a von-Mises target on a circle, and requires replicate-averaged Z_hat/Z and posterior moments within 6 standard errors (+ stated allowances) of the closed forms.",
   note="Trusted: Coq kernel; Reals axioms + functional extensionality; the statistical part is support, not proof: stub random-walk kernels stand in for minipcn / emcee (not installable), so the external kernels' own mixing is not exercised; allowances 0.05 (log Z), 0.08 sigma (mean), 25% (variance).",
   ref="DESIGN.md section 5 C01"),
 })
